@@ -157,6 +157,32 @@ def valid_task(task):
         if bad or i in keep or kind == 'zero':
             d['bad'] = bool(bad)
             rec['decodes'].append(d)
+    # history on the CODE object: the same object is deformed again (another deformation name or axis), a new decoder with the
+    # same options is built on it and must decode for the code as it is now
+    if decname in COMPLETE and dn is not None and 'BeliefPropagation' in decname:
+        import panqec.codes as pc_
+        klass_ = getattr(pc_, cls)
+        others = [(nm_, ax_) for nm_ in klass_.deformation_names for ax_ in dc.AXES.get(cls, [None]) if (nm_, ax_) != (dn, ax)]
+        if others:
+            nm2, ax2 = rng.choice(others)
+            try:
+                with contextlib.redirect_stdout(io.StringIO()):
+                    code.deform(nm2, **({'deformation_axis': ax2} if ax2 else {}))
+                    em2 = PauliErrorModel(*direction, deformation_name=nm2, deformation_kwargs=({'deformation_axis': ax2} if ax2 else {}))
+                    dec2 = make_decoder(decname, code, em2, p, **opts)
+                for kind, e in errs[:1] + rng.sample(errs, min(len(errs), 6)):
+                    syn = code.measure_syndrome(e)
+                    with contextlib.redirect_stdout(io.StringIO()), np.errstate(all='ignore'):
+                        c = np.asarray(dec2.decode(syn.copy())) % 2
+                    rec['n_decodes'] += 1
+                    if not np.array_equal(code.measure_syndrome(c.astype('uint8')), syn):
+                        rec['decodes'].append({'kind': 're-deformed code object: %s axis %s after %s axis %s' % (nm2, ax2, dn, ax), 'error': rows(e, n),
+                                               'shape_ok': True, 'binary': True, 'reproduces': False, 'correction': rows(c, n),
+                                               'syndrome': [int(j) for j in np.nonzero(syn)[0]], 'bad': True})
+                        break
+            except Exception as ex:
+                rec['decodes'].append({'kind': 're-deformed code object: %s axis %s after %s axis %s' % (nm2, ax2, dn, ax), 'error': {'x': [], 'z': []},
+                                       'exception': '%s: %s' % (type(ex).__name__, ex), 'bad': True})
     return rec
 
 
